@@ -72,6 +72,30 @@ def lossy_casts(fx, fid):
     return out
 
 
+def early_exits(fx, fid):
+    """number of ways a loop of fid (or of its closures) can be left other than by exhausting its iterator / failing its
+    condition: CFG edges from a loop body to a block outside it, minus the one natural exit per loop (`break`, `return` and
+    `?` inside a loop all count)"""
+    n = 0
+    ids = [fid] + [c for c in fx.fns if c != fid and fx.root_fn(c) == fid]
+    for i in ids:
+        f = fx.fns[i]
+        if not f.get("blocks"):
+            continue
+        g = cfgmod.CFG(f)
+        for head, body, backs in g.loops:
+            body = set(body) | {head}
+            exits = set()
+            for b in body:
+                if f["blocks"][b].get("cleanup"):
+                    continue
+                for _lbl, t in cfgmod.succs(f["blocks"][b]):
+                    if t not in body and not f["blocks"][t].get("cleanup") and f["blocks"][t]["term"]["k"] != "unreachable":
+                        exits.add((b, t))
+            n += max(0, len(exits) - 1)
+    return n
+
+
 # confirmed on the pinned tree by reading each site: signature key -> {operation: count}
 CONFIRMED = {}
 
@@ -98,6 +122,10 @@ def check(ctx, rep, P, walked):
     n_sites = 0
     for fid in roots:
         calls = lossy_calls(fx, fid) + lossy_casts(fx, fid) + helper_calls.get(fid, [])
+        ee = early_exits(fx, fid) + sum(early_exits(fx, h) for h in nh if fid in fx.attributed(h))
+        ee += len({cid for (froot, fkind, cid) in sym.FUSED_ADAPTORS if fkind == "Iterator::take_while" and (
+            froot == fid or froot in [h for h in nh if fid in fx.attributed(h)])})
+        calls = calls + [("early-exit", None)] * ee
         if not calls:
             continue
         key = sig_key(fx, fid)
